@@ -1825,6 +1825,13 @@ let rec rev = function
 | [] -> []
 | x :: l' -> app (rev l') (x :: [])
 
+(** val rev_append : 'a1 list -> 'a1 list -> 'a1 list **)
+
+let rec rev_append l l' =
+  match l with
+  | [] -> l'
+  | a :: l0 -> rev_append l0 (a :: l')
+
 (** val concat : 'a1 list list -> 'a1 list **)
 
 let rec concat = function
@@ -3113,6 +3120,11 @@ let rec drop_while p l = match l with
 
 let trim_start =
   drop_while
+
+(** val frev : 'a1 list -> 'a1 list **)
+
+let frev l =
+  rev_append l []
 
 (** val trim_end : (byte -> bool) -> bytes -> bytes **)
 
@@ -5693,10 +5705,10 @@ let take_line l =
   match split_at lF l with
   | Some p ->
     let (before, rest) = p in
-    (match rev before with
+    (match frev before with
      | [] -> None
      | b :: rb -> (match b with
-                   | X0d -> Some ((rev rb), rest)
+                   | X0d -> Some ((frev rb), rest)
                    | _ -> None))
   | None -> None
 
@@ -6554,11 +6566,11 @@ let line_crlf l =
   match to_lf l with
   | Some p ->
     let (before, rest) = p in
-    (match rev before with
+    (match frev before with
      | [] -> Some (None, rest)
      | b :: rb ->
        (match b with
-        | X0d -> Some ((Some (rev rb)), rest)
+        | X0d -> Some ((Some (frev rb)), rest)
         | _ -> Some (None, rest)))
   | None -> None
 
